@@ -3,6 +3,8 @@
 rsync -a --delete --exclude _build --exclude replays --exclude .git /verif/ /tmp/verif2/
 mkdir -p /tmp/verif2/_build
 export VERIF_REPO=/tmp/repo2
+[ -d /tmp/repo2 ] || git -C /repo worktree add -q --detach /tmp/repo2 HEAD
+git -C /tmp/repo2 checkout -q --detach $(git -C /repo rev-parse HEAD) 2>/dev/null
 git -C /tmp/repo2 checkout -q -- . ; git -C /tmp/repo2 clean -fdq
 for c in "$@"; do
   out=$(timeout 1500 /tmp/verif2/bin/check $c quick 2>&1)
